@@ -93,7 +93,7 @@ pub fn run(cx: &Ctx) {
     cx.run_enum(&Small, total, |i| Some(QStream { p: ps[(i % np) as usize], xs: seqs[(i / np) as usize].clone() }), "all sequences of length 1..=4 over a 5-symbol alphabet with a duplicate x p grid of 100+ values (all k/n boundaries +- 1 ulp)");
     cx.label("generated");
     let strat = || {
-        (prop_oneof![2 => 0.0..=1.0f64, 1 => proptest::sample::select(p_grid())], vec(prop_oneof![3 => -1e6..1e6f64, 1 => (-30.0..30.0f64).prop_map(|e| 10f64.powf(e)), 1 => proptest::sample::select(vec![0.0, -0.0, 1.0, -1.0]), 1 => proptest::sample::select(vec![f64::MAX, f64::MIN, 1e308, 1.5e308, -1e308, -1.7e308, 5e-324, -5e-324, f64::MIN_POSITIVE])], 1..5))
+        (prop_oneof![2 => 0.0..=1.0f64, 1 => proptest::sample::select(p_grid())], vec(prop_oneof![3 => -1e6..1e6f64, 1 => (-30.0..30.0f64).prop_map(|e| 10f64.powf(e)), 1 => proptest::sample::select(vec![0.0, -0.0, 1.0, -1.0]), 1 => proptest::sample::select(vec![f64::MAX, f64::MIN, 1e308, 1.5e308, -1e308, -1.7e308, 5e-324, -5e-324, f64::MIN_POSITIVE]), 1 => (300.0..308.25f64, any::<bool>()).prop_map(|(e, s)| { let v = 10f64.powf(e).min(f64::MAX); if s { -v } else { v } })], 1..5))
             .prop_map(|(p, xs)| QStream { p, xs })
     };
     cx.run_pt(&Small, cx.by(10000, 100000), cx.workers, strat, "random finite values, random p");
